@@ -91,6 +91,10 @@ func (ucr *UnsignedChunkReader) Read(p []byte) (int, error) {
 		payload := make([]byte, chunkSize)
 		// Read and cache the payload
 		_, err = io.ReadFull(rdr, payload)
+		if err == io.EOF {
+			// the stream ended right where the chunk data should begin
+			err = io.ErrUnexpectedEOF
+		}
 		if err != nil {
 			return 0, err
 		}
@@ -155,6 +159,10 @@ func (ucr *UnsignedChunkReader) readAndSkip(data ...byte) error {
 func (ucr *UnsignedChunkReader) extractChunkSize() (int64, error) {
 	line, err := ucr.reader.ReadString('\n')
 	if err != nil {
+		return 0, errMalformedEncoding
+	}
+	// the chunk size line is terminated by "\r\n"
+	if !strings.HasSuffix(line, "\r\n") {
 		return 0, errMalformedEncoding
 	}
 	line = strings.TrimSpace(line)
